@@ -22,6 +22,7 @@ def main():
     ap.add_argument("--checks", default=None)
     ap.add_argument("--demo-flags", default="-O1")
     ap.add_argument("--demo-cxx", default="g++")
+    ap.add_argument("--demo-cmd", default=None, help="whole build-and-run command of the demonstration; {inc} {demo} {exe} are substituted")
     ap.add_argument("--needs", default="")
     ap.add_argument("--skip-tests", action="store_true")
     ap.add_argument("--tier", default="quick")
@@ -50,6 +51,10 @@ def main():
                 return sh(f"{exe}", timeout=900)
             rc0, o0 = rej("/repo/lib/core", f"{wt}/demo_clean")
             rc1, o1 = rej(f"{wt}/lib/core", f"{wt}/demo_mut")
+        elif a.demo_cmd:
+            rc0, o0 = sh(a.demo_cmd.format(inc="/repo/lib/core", demo=demo, exe=f"{wt}/demo_clean"), timeout=900)
+            rc1, o1 = sh(a.demo_cmd.format(inc=f"{wt}/lib/core", demo=demo, exe=f"{wt}/demo_mut"), timeout=900)
+            flags = a.demo_cmd
         else:
             rc0, o0 = sh(f"{a.demo_cxx} -std=c++20 -w {flags} -I/repo/lib/core {demo} -o {wt}/demo_clean && {wt}/demo_clean", timeout=900)
             rc1, o1 = sh(f"{a.demo_cxx} -std=c++20 -w {flags} -I{wt}/lib/core {demo} -o {wt}/demo_mut && {wt}/demo_mut", timeout=900)
